@@ -326,21 +326,32 @@ def _law_case(args):
                     f"call sequence {seq}: config {k} gives {r} instead of "
                     f"{alone[k]}")
     # temperature: scalar vs identical per-event array vs varying array
-    tk = dict(medium="CellCarrier", visc_model="buyukurganci-2022")
+    # ... in every set-up (the probes are moved along with the channel)
     temps = np.array([22.0, 23.0, 24.0, 25.0, 23.5, 22.5])
-    per_event = E(temperature=temps, **tk)
-    single = np.array([E(x=cx[i:i + 1], d=cd[i:i + 1],
-                         temperature=float(temps[i]), **tk)[0]
-                       for i in range(n)])
-    cnt += n
-    if not np.allclose(per_event, single, rtol=1e-9, equal_nan=True):
-        bad("per-event-temperature-differs",
-            f"array temperature {per_event} vs one-by-one scalar {single}")
-    same_arr = E(temperature=np.full(n, 23.0), **tk)
-    scal = E(temperature=23.0, **tk)
-    if not np.allclose(same_arr, scal, rtol=1e-9, equal_nan=True):
-        bad("per-event-temperature-differs",
-            f"identical array {same_arr} vs scalar {scal}")
+    pw = 2 if featx == "area_um" else 3
+    for setup in (dict(), dict(channel_width=30.0), dict(flow_rate=0.16),
+                  dict(px_um=0.0), dict(channel_width=40.0, px_um=0.0,
+                                        flow_rate=0.32)):
+        for vm in ("buyukurganci-2022", "herold-2017"):
+            tk = dict(medium="CellCarrier", visc_model=vm, **setup)
+            xs = cx * (setup.get("channel_width", 20.0) / 20.0) ** pw
+            per_event = E(x=xs, temperature=temps, **tk)
+            single = np.array([E(x=xs[i:i + 1], d=cd[i:i + 1],
+                                 temperature=float(temps[i]), **tk)[0]
+                               for i in range(n)])
+            cnt += n
+            if not np.isfinite(single).any():
+                bad("probe-outside-lut", f"{lut_id} {setup}: all NaN")
+            if not np.allclose(per_event, single, rtol=1e-9, equal_nan=True):
+                bad("per-event-temperature-differs",
+                    f"{setup} {vm}: array temperature {per_event} vs "
+                    f"one-by-one scalar {single}")
+            same_arr = E(x=xs, temperature=np.full(n, 23.0), **tk)
+            scal = E(x=xs, temperature=23.0, **tk)
+            if not np.allclose(same_arr, scal, rtol=1e-9, equal_nan=True):
+                bad("per-event-temperature-differs",
+                    f"{setup} {vm}: identical array {same_arr} vs scalar "
+                    f"{scal}")
     # registered / given tables are not modified
     lut2, meta2 = load_lut(lut_arg)
     if not np.array_equal(np.array(lut2), lut) or meta2 != meta:
